@@ -1,5 +1,6 @@
 import MdwModel.Driver.LiveProps
 import MdwModel.Model.Info
+import MdwModel.Model.Elf
 namespace Mdw.Drv.C18
 open Mdw Mdw.Drv Mdw.Drv.Live Mdw.Drv.LiveProps
 
@@ -72,7 +73,8 @@ def run (kv : List (String × String)) : IO Res := do
     | [fd, mode, ok, link] => do
       if ok != "1" then none else
       let bytes ← unhex link
-      let s := (String.fromUTF8? (ByteArray.mk bytes.toArray)).getD ""
+      -- (`to_string_lossy`: a link target that is not UTF-8 is listed with replacement characters, not dropped)
+      let s := (String.fromUTF8? (ByteArray.mk (Elf.lossyBytes bytes).toArray)).getD ""
       some (← fd.toNat?, ← mode.toNat?, encode16 s.toList)
     | _ => none)
   let some hd := findStream lc.dir ST_HANDLE_DATA | return .propfail "no handle stream" tags
